@@ -377,10 +377,14 @@ func (c20) Eval(c *Chooser, env *Env) *Outcome {
 		tools.Missing["pyflakes"] = true // enabled but not installed: the rule is disabled with a log
 		havePF = false
 	}
-	w := &World{Disk: disk, Cwd: root, CPUs: []int{2, 1, 4, 16, 3}[c.Int("world.cpus", 5)], API: APIFiles, Tools: tools, Note: "C20 tool integration"}
+	cwd := root
+	if c.Weighted("world.cwdparent", 1, 6) {
+		cwd = "/w" // linting from the parent directory of the repository
+	}
+	w := &World{Disk: disk, Cwd: cwd, CPUs: []int{2, 1, 4, 16, 3}[c.Int("world.cpus", 5)], API: APIFiles, Tools: tools, Note: "C20 tool integration"}
 	for _, f := range files {
-		if strings.HasPrefix(f, root+"/") {
-			w.Files = append(w.Files, strings.TrimPrefix(f, root+"/"))
+		if strings.HasPrefix(f, cwd+"/") {
+			w.Files = append(w.Files, strings.TrimPrefix(f, cwd+"/"))
 		} else {
 			w.Files = append(w.Files, f)
 		}
@@ -391,6 +395,8 @@ func (c20) Eval(c *Chooser, env *Env) *Outcome {
 			w.Opts.Shellcheck = "shellcheck --severity=style" // a command line instead of an executable name
 		} else if c.Weighted("world.toolpathblank", 1, 6) {
 			w.Opts.Shellcheck = "/opt/my tools/shellcheck" // an executable whose path contains a blank
+		} else if c.Weighted("world.toolpathrel", 1, 6) {
+			w.Opts.Shellcheck = "./tools/bin/shellcheck" // a path relative to the working directory
 		}
 	}
 	if c.Weighted("world.gomaxprocs", 1, 4) {
@@ -476,8 +482,9 @@ func (c20) Eval(c *Chooser, env *Env) *Outcome {
 		o.Traces = append(o.Traces, res.K.Trace)
 	}
 	if viaMain {
-		mainToLib(res, root)
+		mainToLib(res, cwd)
 	}
+	c20Rebase(res, cwd, root)
 	k := res.K
 	o.Nontrivial = len(expect) >= 2 && k.MaxRunnable >= 2
 	o.Sig = w.Hash() ^ k.TraceHash
@@ -582,8 +589,9 @@ func (c20) Eval(c *Chooser, env *Env) *Outcome {
 					r0 := RunLint(w, nil, RunOpts{Canonical: true})
 					o.addRun(r0.K)
 					if viaMain {
-						mainToLib(r0, root)
+						mainToLib(r0, cwd)
 					}
+					c20Rebase(r0, cwd, root)
 					if runFailure("C20", r0.K) == nil && r0.Fatal != "" && r0.Fatal != res.Fatal {
 						o.V = &Violation{Oracle: "schedule-independent-output", Class: "fatal-error-differs",
 							Message: fmt.Sprintf("one tool invocation fails (%s); the fatal error returned depends on the schedule.\n  canonical run: %s\n  this run:      %s", strings.Join(faulted, ", "), r0.Fatal, res.Fatal)}
@@ -688,8 +696,9 @@ func (c20) Eval(c *Chooser, env *Env) *Outcome {
 	r0 := RunLint(w, nil, RunOpts{Canonical: true})
 	o.addRun(r0.K)
 	if viaMain {
-		mainToLib(r0, root)
+		mainToLib(r0, cwd)
 	}
+	c20Rebase(r0, cwd, root)
 	if runFailure("C20", r0.K) == nil && r0.Fatal == "" {
 		if what, cls := firstDiff(cmpOf(r0), cmpOf(res)); what != "" {
 			o.V = &Violation{Oracle: "schedule-independent-output", Class: "tools:" + cls,
@@ -714,6 +723,18 @@ func hasInt(s string, n int) bool {
 			return true
 		}
 		i = a + 1
+	}
+}
+
+// c20Rebase renames the files of the diagnostics relative to the repository root when the run
+// had another working directory.
+func c20Rebase(res *LintResult, cwd, root string) {
+	if cwd == root {
+		return
+	}
+	pre := strings.TrimPrefix(root, cwd+"/") + "/"
+	for i := range res.Errs {
+		res.Errs[i].File = strings.TrimPrefix(res.Errs[i].File, pre)
 	}
 }
 
